@@ -45,8 +45,15 @@ class ColIntern:
         return self.ids.setdefault(tuple(key), len(self.ids) + 1)
 
 
-def frame_cols(df, intern):
-    return [[str(c), intern(df[c].to_numpy())] for c in df.columns]
+CUSTOM_AXES = {"t": "timestamp", "z": "depth_m", "y": "latitude", "x": "longitude"}
+AXIS_BACK = {"timestamp": "time", "depth_m": "z", "latitude": "lat", "longitude": "lon"}
+
+
+def frame_cols(df, intern, custom_axes=False):
+    """(column name, interned content) pairs; for a store with caller-chosen axis names the axis columns are mapped back
+    to the default names the model uses — a default name appearing in such a frame is left as it is and so will not match."""
+    back = (lambda c: AXIS_BACK.get(c, ("unexpected-default-axis-name:" + c) if c in AXIS_BACK.values() else c)) if custom_axes else (lambda c: c)
+    return [[back(str(c)), intern(df[c].to_numpy())] for c in df.columns]
 
 
 def run(out: Outcome, drv):
@@ -93,7 +100,10 @@ def run(out: Outcome, drv):
             warnings.simplefilter("ignore")
             try:
                 results = list(PandasStream(sc.make_df(tab)).run(Config(cfg)))
-                store = PandasStore(results)
+                # every fourth store names its axis columns itself; the others must keep the default names whatever
+                # other stores of the same process were told
+                custom_axes = (it % 4 == 2)
+                store = PandasStore(results, axes=dict(CUSTOM_AXES)) if custom_axes else PandasStore(results)
             except Exception as e:  # noqa: BLE001
                 out.tags["stream_failed"] += 1
                 continue
@@ -127,7 +137,7 @@ def run(out: Outcome, drv):
         wired = [{"stream": c.stream_id or "", "package": c.package or "", "test": c.test or "",
                   "fn": f"fn:{c.package}.{c.test}", "results": intern(c.results) or 0, "data": intern(c.data) or 0,
                   "tinp": intern(c.tinp), "zinp": intern(c.zinp), "lon": intern(c.lon), "lat": intern(c.lat)} for c in crs]
-        obs = frame_cols(df, intern)
+        obs = frame_cols(df, intern, custom_axes)
         if tab["n"] == 0:
             continue
         reqs.append({"kind": "c19", "write_data": write_data, "write_axes": write_axes, "include": case["include"],
@@ -144,11 +154,11 @@ def run(out: Outcome, drv):
                 with warnings.catch_warnings():
                     warnings.simplefilter("ignore")
                     df2 = store.save(write_data=wd2, write_axes=wa2, include=inc2, exclude=exc2)
-                obs2 = frame_cols(df2, intern)
+                obs2 = frame_cols(df2, intern, custom_axes)
                 rows_ok2 = len(df2) == tab["n"] or (len(df2.columns) == 0)
-                if frame_cols(df, intern) != obs:
+                if frame_cols(df, intern, custom_axes) != obs:
                     out.violation(f"{WHAT}: the frame returned by the first save changed when save was called again",
-                                  {"case": jsonable(case2), "observed_first_before": obs, "observed_first_after": frame_cols(df, intern)})
+                                  {"case": jsonable(case2), "observed_first_before": obs, "observed_first_after": frame_cols(df, intern, custom_axes)})
                 second = (case2, obs2, rows_ok2)
             except Exception as e:  # noqa: BLE001
                 out.violation(f"{WHAT}: second PandasStore.save raised {type(e).__name__}: {e}", {"case": jsonable(case2)})
@@ -156,9 +166,9 @@ def run(out: Outcome, drv):
         with warnings.catch_warnings():
             warnings.simplefilter("ignore")
             try:
-                base_cols = frame_cols(store.save(write_data=False, write_axes=False), intern)
+                base_cols = frame_cols(store.save(write_data=False, write_axes=False), intern, custom_axes)
                 store.compute_aggregate()
-                after_cols = frame_cols(store.save(write_data=False, write_axes=False), intern)
+                after_cols = frame_cols(store.save(write_data=False, write_axes=False), intern, custom_axes)
             except Exception as e:  # noqa: BLE001
                 out.violation(f"{WHAT}: save / compute_aggregate raised {type(e).__name__}: {e}", {"case": jsonable(case)})
                 continue
